@@ -94,6 +94,16 @@ def _parse_viols(out: str) -> List[str]:
     return viols
 
 
+def _parse_known(out: str):
+    ks = set()
+    for ln in out.splitlines():
+        if ln.startswith("KNOWN-FINDING:") and ln.rstrip().endswith("]"):
+            tail = ln[ln.rfind("[") + 1:-1]
+            rule, _, rest = tail.partition(" ")
+            ks.add(f"{rule} [{rest.rsplit(' @ ', 1)[0]}]")
+    return ks
+
+
 def _vkey(v: str) -> str:
     """'Rxx file:line [key]: msg' -> 'Rxx [key]' (line numbers are not part of identity)."""
     rule = v.split(" ", 1)[0]
@@ -111,7 +121,7 @@ def baseline(prop: str, repo: str = "/repo") -> Dict[str, Any]:
                                 "--evidence-dir", td, "--tier", "quick", "--no-selftest"], capture_output=True, text=True, timeout=600)
         finally:
             shutil.rmtree(td, ignore_errors=True)
-        b = {"exit": p.returncode, "viols": {_vkey(v) for v in _parse_viols(p.stdout)}}
+        b = {"exit": p.returncode, "viols": {_vkey(v) for v in _parse_viols(p.stdout)}, "known": _parse_known(p.stdout)}
         _BASE[(prop, repo)] = b
         return b
 
@@ -148,7 +158,9 @@ def run_variant(entry: Dict[str, Any], repo: str = "/repo") -> Dict[str, Any]:
                 res["status"] = "fail"
                 res["reason"] = f"expected VIOLATION, got exit {p.returncode}: " + "; ".join(l for l in lines if l.startswith("ANALYSIS-ERROR"))[:300]
         elif entry["kind"] == "repair":
+            now_known = _parse_known(out)
             gone = [b for b in base["viols"] if b.startswith(entry.get("expect_gone", "") + " ") and b not in {_vkey(v) for v in all_viols}]
+            gone += [b for b in base.get("known", ()) if b.startswith(entry.get("expect_gone", "") + " ") and b not in now_known]
             if gone and not viols and p.returncode in (0, 1):
                 res["status"] = "ok"
             else:
